@@ -570,7 +570,7 @@ func sparseKeysUniverse(r *rand.Rand, bits int, maxAtoms int) (*Universe, []iset
 				keys[i] += d
 			}
 		}
-		ng := 3 + r.Intn(2)
+		ng := 3 + (r.Intn(3)+1)/2 // 3 (1/3) or 4 (2/3) generators
 		gens := make([]iset, ng)
 		for i := range gens {
 			var sps []span
@@ -579,7 +579,11 @@ func sparseKeysUniverse(r *rand.Rand, bits int, maxAtoms int) (*Universe, []iset
 					continue
 				}
 				b := key << shift
-				switch r.Intn(8) {
+				switch r.Intn(10) {
+				case 8, 9: // 5000 scattered values: a bitmap chunk whatever the recipe
+					for v := uint64(r.Intn(2)); v < 10000; v += 2 {
+						sps = append(sps, span{b + 20000 + v, b + 20000 + v})
+					}
 				case 6, 7: // a completely full chunk (stored as one run)
 					sps = append(sps, span{b, b + 65535})
 				case 0:
